@@ -8,26 +8,26 @@ def step (s : St) : List String → St × String
     match nat? c, nat? d, nat? v with
     | some c, some d, some v =>
       let (s', r) := register s name (if c ≠ 0 then some v else none) (d ≠ 0)
-      (s', toString r)
+      (s', s!"{r} @{fpListSection}")
     | _, _, _ => (s, "bad-op")
   | ["unreg", iid] =>
     match int? iid with
     | some i =>
-      if i < 0 then (s, "-1 []") else
+      if i < 0 then (s, s!"-1 [] @{fpListSection}") else
       let (s', r, ds) := unregister s i.toNat
-      (s', s!"{r} {showList ds}")
+      (s', s!"{r} {showList ds} @{fpUnregister s i.toNat}")
     | none => (s, "bad-op")
-  | ["lookup", name] => (s, toString (lookup s name))
+  | ["lookup", name] => (s, s!"{lookup s name} @{fpListSection}")
   | ["oanew"] =>
     if s.oas.length ≥ 64 then (s, "rejected") else
     let (s', k) := oaNew s
-    (s', toString k)
+    (s', s!"{k} @{fpListSection}")
   | ["set", a, iid, v] =>
     match int? a, int? iid, nat? v with
     | some a, some iid, some v =>
       if a < 0 ∨ iid < 0 then (s, "rejected") else
       match set s a.toNat iid.toNat v with
-      | some (s', r) => (s', toString r)
+      | some (s', r) => (s', s!"{r} @{fpSet s a.toNat iid.toNat}")
       | none => (s, "rejected")
     | _, _, _ => (s, "bad-op")
   | ["get", a, iid] =>
@@ -35,7 +35,7 @@ def step (s : St) : List String → St × String
     | some a, some iid =>
       if a < 0 ∨ iid < 0 then (s, "rejected") else
       match get s a.toNat iid.toNat with
-      | some (s', r) => (s', toString r)
+      | some (s', r) => (s', s!"{r} @{fpGet s a.toNat iid.toNat}")
       | none => (s, "rejected")
     | _, _ => (s, "bad-op")
   | ["tas", a, iid, v, w] =>
@@ -43,7 +43,7 @@ def step (s : St) : List String → St × String
     | some a, some iid, some v, some w =>
       if a < 0 ∨ iid < 0 then (s, "rejected") else
       match tas s a.toNat iid.toNat v w with
-      | some (s', r) => (s', toString r)
+      | some (s', r) => (s', s!"{r} @{fpTas s a.toNat iid.toNat}")
       | none => (s, "rejected")
     | _, _, _, _ => (s, "bad-op")
   | ["maxid"] => (s, toString s.maxId)
